@@ -1356,6 +1356,43 @@ def check_C20(ctx):
                               % (c["root"]["spec"], c["argv"], d, {x: first[x] for x in d}, {x: o[x] for x in d}), case=g)
                 break
     ctx.stream("shared destinations and several invalid values, rebuilt and rerun", len(copies), programs=len(shared_dest))
+    # (1d) one application OBJECT given two lines in turn, environment-backed options included: the second parse starts from
+    # the containers as the first left them (values, SetByUser, ValueSetFromEnv cleared where the line gave a value). The
+    # model of that (Cmd.fsm_parse_twice, about which RerunProofs proves C20_rerun_same_line and the refutation Q12) is tied
+    # to the library here: verdict and bound values of the second run
+    two = spec_cases(ctx, ctx.scale(1500, 15000), observable=False, env_prob=0.5, mutate_prob=0.3)
+    pairs2 = []
+    for k_ in range(1, len(two)):
+        if two[k_]["root"]["spec"] == two[k_ - 1]["root"]["spec"] and not any(d["kind"] == "custom" for d in two[k_]["root"]["decls"]):
+            c2 = copy.deepcopy(two[k_])
+            c2["before"] = {"spec": c2["root"]["spec"], "argv": list(two[k_ - 1]["argv"]) if rng.random() < 0.6 else list(c2["argv"])}
+            pairs2.append(c2)
+    number(pairs2, start=len(base) + len(rerun) + len(copies))
+    ri = core.run_impl(pairs2)
+    mq = []
+    for c in pairs2:
+        q = dict(c)
+        q["op"] = "rerun"
+        mq.append(q)
+    rm = core.run_model(mq)
+    n_two = {"accept": 0, "usage": 0, "conv": 0, "unknown": 0, "same_line": 0}
+    for c in pairs2:
+        ctx.count(c)
+        a = core.obs_impl(ri[c["id"]])
+        m = rm[c["id"]]
+        if not isinstance(m, list) or not m or m[0] in ("unknown", "initerr", "fuel", "model-timeout") or a["outcome"][0] == "timeout":
+            n_two["unknown"] += 1
+            continue
+        verdict = "accept" if accepted(a) else {("ret", "usage"): "usage", ("ret", "conv"): "conv"}.get(tuple(a["outcome"]), str(a["outcome"]))
+        n_two[m[0]] = n_two.get(m[0], 0) + 1
+        n_two["same_line"] += c["before"]["argv"] == c["argv"]
+        if verdict != m[0]:
+            ctx.mismatch("second run of one object: Impl %s, model %s" % (verdict, m[0]), case=c, impl={"outcome": a["outcome"]}, model={"verdict": m[0]})
+        elif verdict == "accept":
+            mv = {key: vals for key, vals, sb, isc in m[1]}
+            if mv != a["values"]:
+                ctx.mismatch("second run of one object: bound values differ", case=c, impl={"values": a["values"]}, model={"values": mv})
+    ctx.stream("one object, two lines in turn", len(pairs2), **n_two)
     # (2) concurrent under the race detector
     binary = os.path.join(core.HARNESS, "harness_race")
     groups = [base[i:i + 12] for i in range(0, len(base), 12)]
